@@ -28,7 +28,7 @@ def run(tier, seed):
 
 def _run(ev, work, thorough, seed):
     # ---- 1. design level: TLC on the mechanism, both variants -------------------------------------
-    vals = (0, 1, 2, 3, 4, 7, 8, 9) if thorough else (0, 1, 4, 8)
+    vals = (0, 1, 4, 8, 9) if thorough else (0, 1, 4, 8)
     cfg = SF.model_cfg(os.path.join(work, "kv_fixed.cfg"), vals=vals, maxops=3 if not thorough else 3, kv=True,
                        app=False, fail=False, meta=True, trunc_kv=True, trunc_app=False, restore=False,
                        invariants=SF.CONTRACT_INV + ["NoStaleTail"], properties=SF.CONTRACT_PROP,
@@ -48,7 +48,7 @@ def _run(ev, work, thorough, seed):
         raise T.TLCError("model mutant (no truncation) should violate Openable; the invariant is vacuous")
     ev.add_tlc("SingleFile kv, TruncateAfterKv=FALSE (model mutant): Openable violated as it must be", res)
     # ---- 2. spec -> code: replay the history tree -------------------------------------------------
-    hists, res = SF.export_histories(work, vals=(0, 1, 2, 4, 8, 9) if thorough else (1, 8), maxops=2, kv=True,
+    hists, res = SF.export_histories(work, vals=(0, 1, 8) if thorough else (1, 8), maxops=2, kv=True,
                                      app=False, fail=False, meta=True)
     ev.add_tlc("SingleFileExport: two-key kv histories of length 2", res, histories=len(hists))
     h1, res1 = SF.export_histories(work, vals=tuple(range(0, 13 if thorough else 10)), maxops=2, kv=True, app=False,
@@ -115,6 +115,31 @@ def _run(ev, work, thorough, seed):
             ev.drift.append({"trace": {"hid": tr["hid"], "step": tr["step"]}, "matched": v.get("matched"),
                              "next_event": v.get("next_event"), "real_ok": tr["real_ok"]})
     ev.extra["traces_rejected_as_drift"] = rejected
+    # ---- binding self-test: a tampered copy of an accepted trace must NOT be a behaviour of the specification ----
+    acc = [traces[i] for i in range(len(traces)) if verdicts[i]["accepted"] and len(traces[i]["events"]) >= 6][:40]
+    tampered = []
+    for k, tr in enumerate(acc):
+        evs = [dict(e) for e in tr["events"]]
+        widx = [i for i, e in enumerate(evs) if e.get("ev") == "write"]
+        if not widx:
+            continue
+        if k % 3 == 0:
+            del evs[widx[0]]                                  # a write that the code made is missing from the log
+        elif k % 3 == 1 and "n" in evs[widx[0]]:
+            evs[widx[0]]["n"] = evs[widx[0]]["n"] + 1         # one recorded byte count is off by one
+        else:
+            evs[widx[0]], evs[widx[-1]] = evs[widx[-1]], evs[widx[0]]     # first and last write swapped
+            if evs == tr["events"]:
+                del evs[widx[0]]
+        tampered.append(dict(tr, events=evs))
+    if tampered:
+        tv, tr2 = SF.validate_traces(tampered, work)
+        nacc = sum(1 for i in range(len(tampered)) if tv[i]["accepted"])
+        ev.add_tlc("SingleFileTrace binding self-test: %d tampered traces (dropped write / byte count +1 / writes swapped), "
+                   "%d accepted" % (len(tampered), nacc), tr2)
+        ev.extra["tampered_traces"] = {"submitted": len(tampered), "accepted": nacc}
+        if nacc > len(tampered) // 4:
+            raise T.TLCError("the trace specification accepts %d of %d tampered traces: it does not bind the code" % (nacc, len(tampered)))
     if rejected:
         print("DRIFT: %d of %d recorded traces are not behaviours of the mechanism model (contract judged on the real file)"
               % (rejected, len(traces)))
